@@ -57,11 +57,11 @@ Proof.
     assert (Fresh : forall i, ~ In (i, p, s) (hist w)).
     { intros i Hi. rewrite forallb_forall in Wh. apply Wh in Hi. rewrite !Z.eqb_refl in Hi. discriminate. }
     pose proof (inv_next _ I) as N0.
-    assert (Al : forall i q t, In (i, q, t) (hist w) -> alive w i = false -> alive (kstep w (Spawn p s pp cm)) i = false).
-    { intros i q t Hi A. apply alive_false. cbn [kstep table]. intros k Hk E.
+    assert (Al : forall i, i < nextinc w -> alive w i = false -> alive (kstep w (Spawn p s pp cm)) i = false).
+    { intros i Hi A. apply alive_false. cbn [kstep table]. intros k Hk E.
       apply in_app_iff in Hk as [Hk|[Hk|[]]].
       - apply (proj1 (alive_false w i) A k Hk E).
-      - subst k. cbn [kinc] in E. apply (inv_lt _ I) in Hi. lia. }
+      - subst k. cbn [kinc] in E. lia. }
     constructor; cbn [kstep table hist nextinc ms ginc].
     + lia.
     + rewrite map_app. cbn [map kpid]. apply nodup_snoc; [apply (inv_nodup _ I)|].
@@ -81,9 +81,10 @@ Proof.
       * inversion E'; subst. exfalso. eapply Fresh; eauto.
       * eapply (inv_inj _ I); eauto.
     + eapply Forall2_impl; [|apply (inv_objs _ I)].
-      intros x i ((s0 & Es0 & H1) & H2 & H3 & H4 & H5). unfold obj_ok. cbn [hist]. splits; auto; try lia.
-      * exists s0. split; auto. right; auto.
-      * intros G. eapply Al; eauto.
+      intros x i (H1 & H2 & H3 & H4 & H5). unfold obj_ok. cbn [hist]. splits; auto; try lia.
+      * destruct H1 as [(s0 & Es0 & H1)|H1]; [left; exists s0; split; auto; right; auto|right; auto].
+      * intros G. apply Al; auto.
+        destruct H1 as [(s0 & Es0 & H1)|(Ei & _)]; [apply (inv_lt _ I) in H1; lia|lia].
   - (* SpawnThread *)
     apply (inv_table_shrink w); auto; cbn [kstep table].
     + rewrite map_map. erewrite map_ext; [apply (inv_nodup _ I)|].
@@ -212,29 +213,61 @@ Qed.
 
 (* every call keeps the old objects (possibly updated in place, still tied to their incarnation)
    and appends objects built by Process(pid) *)
+(* objects a call may append: built by Process(pid), or the identity-less object of a Popen whose child is gone *)
+Definition fresh (w : world) (y : pobj) : Prop :=
+  (exists p, new_obj (view_of w) p = Val y)
+  \/ (exists p, y = orphan_obj p /\ 0 <= p < PID_MAX /\ lookup (table w) p = None).
+
+Lemma fresh_ok w y : Inv w -> fresh w y -> obj_ok w y (ghost_of w y).
+Proof.
+  intros I [[p N]|(p & -> & R & L)].
+  - destruct (new_obj_ok w p y I N) as (i & Ow & O & Ep & _). unfold ghost_of. rewrite Ep, Ow. exact O.
+  - unfold ghost_of, orphan_obj; cbn [opid]. rewrite owner_lookup, L.
+    unfold obj_ok; cbn [opid ostart ogone oreused ohash]. splits; auto; try lia; try discriminate.
+    intros _. apply neg_not_alive; auto. lia.
+Qed.
+
 Lemma mcall_objs w c m1 r scs : Inv w -> mcall (view_of w) (ms w) c = (m1, r, scs) ->
   exists upd news, objs m1 = upd ++ news /\ Forall2 (obj_ok w) upd (ginc w) /\
-                   Forall (fun y => exists p, new_obj (view_of w) p = Val y) news.
+                   Forall (fresh w) news.
 Proof.
   intros I H. pose proof (inv_objs _ I) as F.
   assert (Same : forall m, objs m = objs (ms w) ->
           exists upd news, objs m = upd ++ news /\ Forall2 (obj_ok w) upd (ginc w) /\
-                           Forall (fun y => exists p, new_obj (view_of w) p = Val y) news).
+                           Forall (fresh w) news).
   { intros m E. exists (objs (ms w)), []. rewrite app_nil_r. auto. }
   assert (Upd : forall m o x1 x i, nth_error (objs (ms w)) o = Some x -> nth_error (ginc w) o = Some i ->
           obj_ok w x1 i -> objs m = upd_nth o x1 (objs (ms w)) ->
           exists upd news, objs m = upd ++ news /\ Forall2 (obj_ok w) upd (ginc w) /\
-                           Forall (fun y => exists p, new_obj (view_of w) p = Val y) news).
+                           Forall (fresh w) news).
   { intros m o x1 x i Ex Ei O1 E. exists (upd_nth o x1 (objs (ms w))), []. rewrite app_nil_r.
     splits; auto. eapply upd_objs_ok; eauto. }
-  destruct c as [pid|pid|o|o|o|o|a b|a b|o s|o|o| |]; cbn [mcall] in H.
+  destruct c as [pid|pid|o|o s|o|o|o|o|o|a b|a b|o s|o|o| |]; cbn [mcall] in H.
   - (* New *)
     destruct (new_obj (view_of w) pid) as [y|e|] eqn:N; inversion H; subst; auto.
-    exists (objs (ms w)), [y]. cbn [with_objs objs]. splits; eauto.
+    exists (objs (ms w)), [y]. cbn [with_objs objs]. splits; auto. constructor; [left; eauto|constructor].
   - (* NewPopen *)
-    destruct (kexists (view_of w) pid); [|inversion H; subst; auto].
-    destruct (new_obj (view_of w) pid) as [y|e|] eqn:N; inversion H; subst; auto.
-    exists (objs (ms w)), [y]. cbn [with_objs objs]. splits; eauto.
+    destruct (new_popen (view_of w) pid) as [y|e|] eqn:N; inversion H; subst; auto.
+    exists (objs (ms w)), [y]. cbn [with_objs objs]. splits; auto. constructor; [|constructor].
+    unfold new_popen in N. destruct (Z.ltb_spec pid 0); [discriminate|].
+    destruct (Z.leb_spec PID_MAX pid); [discriminate|]. rewrite view_stat in N.
+    destruct (lookup (table w) pid) eqn:L; [left; eauto|].
+    inversion N; subst. right. exists pid. splits; auto; lia.
+  - (* SetProbe *)
+    destruct (nth_error (objs (ms w)) o) as [x|] eqn:Ex; [|inversion H; subst; auto].
+    destruct (Forall2_nth_l _ _ _ _ _ F Ex) as (i & Ei & O).
+    unfold do_probe in H. destruct (opid x <? 0).
+    + inversion H; subst. apply (Upd _ o x x i); auto.
+    + destruct (raise_if_spec w x i I O) as (x1 & r1 & add & E & (_ & _ & O1) & _). rewrite E in H.
+      inversion H; subst. apply (Upd _ o x1 x i); auto.
+  - (* SetAct *)
+    destruct (nth_error (objs (ms w)) o) as [x|] eqn:Ex; [|inversion H; subst; auto].
+    destruct (Forall2_nth_l _ _ _ _ _ F Ex) as (i & Ei & O).
+    destruct (setter_body (view_of w) x s) as [[x2 r2] scs2] eqn:B.
+    pose proof (body_ok_obj _ _ _ _ _ _ _ I O (setter_body_spec _ _ _ _ _ _ B)) as O2.
+    inversion H; subst. apply (Upd _ o x2 x i); auto.
+  - (* EqOther *)
+    destruct (nth_error (objs (ms w)) o); inversion H; subst; auto.
   - (* OneshotEnter *)
     destruct (nth_error (objs (ms w)) o) as [x|] eqn:Ex; [|inversion H; subst; auto].
     destruct (Forall2_nth_l _ _ _ _ _ F Ex) as (i & Ei & O).
@@ -296,22 +329,33 @@ Proof.
     + match type of H with context [iter_loop ?K ?a ?n ?os ?pm ?acc] =>
         destruct (iter_loop K a n os pm acc) as [[os' pm'] r'] eqn:L end.
       apply iter_loop_objs in L as [news [E Fn]]. inversion H; subst. cbn [objs].
-      exists (objs (ms w)), news. auto.
+      exists (objs (ms w)), news. splits; auto.
+      eapply Forall_impl; [|exact Fn]. intros y Hy. left. exact Hy.
 Qed.
+
+Lemma cstep_eq w c :
+  cstep w c =
+  ({| table := table w; hist := hist w; nextinc := nextinc w; btime := btime w;
+      ms := fst (fst (mcall (view_of w) (ms w) c));
+      ginc := ginc w ++ map (ghost_of w)
+                            (skipn (length (objs (ms w))) (objs (fst (fst (mcall (view_of w) (ms w) c))))) |},
+   snd (fst (mcall (view_of w) (ms w) c)),
+   map (tag w) (snd (mcall (view_of w) (ms w) c))).
+Proof. unfold cstep. destruct (mcall (view_of w) (ms w) c) as [[m1 r] scs]. reflexivity. Qed.
 
 Lemma step_call w c :
   step w (EC c) =
   ({| table := table w; hist := hist w; nextinc := nextinc w; btime := btime w;
       ms := fst (fst (mcall (view_of w) (ms w) c));
-      ginc := ginc w ++ map (fun y => match owner w (opid y) with Some i => i | None => -1 end)
+      ginc := ginc w ++ map (ghost_of w)
                             (skipn (length (objs (ms w))) (objs (fst (fst (mcall (view_of w) (ms w) c))))) |},
    snd (fst (mcall (view_of w) (ms w) c)),
    map (tag w) (snd (mcall (view_of w) (ms w) c))).
-Proof. cbn [step]. destruct (mcall (view_of w) (ms w) c) as [[m1 r] scs]. reflexivity. Qed.
+Proof. cbn [step]. apply cstep_eq. Qed.
 
-Lemma call_inv w c : Inv w -> Inv (next w (EC c)).
+Lemma cstep_inv w c : Inv w -> Inv (fst (fst (cstep w c))).
 Proof.
-  intros I. unfold next. rewrite step_call. cbn [fst].
+  intros I. rewrite cstep_eq. cbn [fst].
   destruct (mcall (view_of w) (ms w) c) as [[m1 r] scs] eqn:M. cbn [fst snd].
   destruct (mcall_objs w c m1 r scs I M) as (upd & news & E & Fu & Fn).
   assert (Len : length upd = length (objs (ms w))).
@@ -320,16 +364,34 @@ Proof.
   constructor; cbn [table hist nextinc ms ginc]; try apply I.
   rewrite E. apply Forall2_app.
   - eapply Forall2_impl; [|exact Fu]. intros x i O. eapply obj_ok_ext; [| |exact O]; reflexivity.
-  - clear E. induction Fn as [|y news [p Hy] Fn IH]; cbn [map]; constructor; auto.
-    destruct (new_obj_ok w p y I Hy) as (i & Ow & O & Ep & _). rewrite Ep, Ow.
-    eapply obj_ok_ext; [| |exact O]; reflexivity.
+  - clear E. induction Fn as [|y news Hy Fn IH]; cbn [map]; constructor; auto.
+    eapply obj_ok_ext; [| |apply (fresh_ok w y I Hy)]; reflexivity.
+Qed.
+
+Lemma call_inv w c : Inv w -> Inv (next w (EC c)).
+Proof. intros I. unfold next. cbn [step]. apply cstep_inv; auto. Qed.
+
+Lemma ksteps_inv ks : forall w, Inv w -> wf_kevs w ks = true -> Inv (fold_left kstep ks w).
+Proof.
+  induction ks as [|k ks IH]; intros w I W; cbn [fold_left]; auto.
+  cbn [wf_kevs] in W. apply andb_true_iff in W as [W1 W2]. apply IH; auto. apply kstep_inv; auto.
+Qed.
+
+Lemma race_inv w o s ks : Inv w -> wf_ev w (ER o s ks) = true -> Inv (next w (ER o s ks)).
+Proof.
+  intros I W. cbn [wf_ev] in W. unfold next. cbn [step].
+  pose proof (cstep_inv w (SetProbe o) I) as I1.
+  destruct (cstep w (SetProbe o)) as [[w1 r1] e1]. cbn [fst] in *.
+  pose proof (ksteps_inv ks w1 I1 W) as I2.
+  destruct r1; cbn [fst]; auto. apply cstep_inv; auto.
 Qed.
 
 Lemma next_inv w e : Inv w -> wf_ev w e = true -> Inv (next w e).
 Proof.
-  intros I W. destruct e as [k|c].
+  intros I W. destruct e as [k|c|o s ks].
   - apply kstep_inv; auto.
   - apply call_inv; auto.
+  - apply race_inv; auto.
 Qed.
 
 Lemma inv0 : Inv world0.
